@@ -8,7 +8,7 @@ package main
 // Packet.Unmarshal has returned differs a lot, and an endpoint that keeps references into
 // the frame (zero-copy decoding) only misbehaves over some of them:
 //
-//	0  in-memory pair of harness/stream.go: every message is decoded from its own fresh slice
+//	0  marshalling stream, every message is decoded (Packet.Unmarshal) from its own fresh slice
 //	   that nobody touches again (what the in-tree tests and benchmarks do)
 //	1  marshalling stream, ONE receive buffer per endpoint, reused for every frame:
 //	   Packet.Marshal on send, Packet.Unmarshal of the reused buffer on receive (the wire.go
@@ -21,16 +21,17 @@ package main
 //	   buffer) over an in-memory byte pipe; the reference peer speaks the same framing by hand
 //
 // In every mode SendMsg marshals before it returns (a sender may reuse its DATA buffer) and
-// the two endpoints share no memory.  The boundary events are still taken by tapStream; for
-// the buffer-reusing endpoints the In event is taken at the moment Unmarshal has returned
-// (hook OnDecoded), i.e. before any scribbling, so that the trace shows what the peer sent.
+// the two endpoints share no memory.  The boundary events are still taken by tapStream; the In
+// event is decoded from the frame's bytes into a fresh packet (transports 0-3: hook OnDecoded at
+// the moment Unmarshal has returned; transport 4: the frame the byte pipe has just handed to
+// protostream), so that the trace shows what the peer sent - independently of what the endpoint's
+// own packet object (reused? reset?) holds after the transport has decoded into it.
 
 import (
 	"context"
 	"encoding/binary"
 	"io"
 	"sync"
-	"sync/atomic"
 
 	"github.com/pkg/errors"
 	"github.com/tonistiigi/fsutil"
@@ -52,46 +53,38 @@ type c0607Wire struct {
 	Real     fsutil.Stream
 	Peer     c0607Conn
 	TearDown func()
-	Overlaps func() int
+	frameOf  func() []byte // transport 4: the frame most recently read by the real endpoint
 }
 
-// realIsSender: the code under test is fsutil.Send (C06), otherwise fsutil.Receive (C07);
-// only matters for the names in the packet log of transport 0.
-func c0607NewWire(ctx context.Context, transport, capacity int, realIsSender bool) *c0607Wire {
+func c0607NewWire(ctx context.Context, transport, capacity int) *c0607Wire {
+	link := &c0607Link{down: make(chan struct{})}
 	switch transport {
-	case 1, 2, 3:
-		link := &c0607Link{down: make(chan struct{})}
-		c1 := make(chan []byte, capacity)
-		c2 := make(chan []byte, capacity)
-		real := &c0607BufEndpoint{ctx: ctx, link: link, recv: c2, send: c1, scribble: transport - 1}
-		peer := &c0607BufEndpoint{ctx: ctx, link: link, recv: c1, send: c2, scribble: transport - 1}
-		return &c0607Wire{Real: real, Peer: peer, TearDown: link.tearDown, Overlaps: link.overlapCount}
 	case 4:
-		link := &c0607Link{down: make(chan struct{})}
 		toPeer := &c0607BytePipe{ctx: ctx, link: link, ch: make(chan []byte, capacity)}
 		toReal := &c0607BytePipe{ctx: ctx, link: link, ch: make(chan []byte, capacity)}
 		real := util.NewProtoStream(ctx, toReal, toPeer)
 		peer := &c0607FrameEndpoint{ctx: ctx, r: toPeer, w: toReal}
-		return &c0607Wire{Real: real, Peer: peer, TearDown: link.tearDown, Overlaps: link.overlapCount}
+		return &c0607Wire{Real: real, Peer: peer, TearDown: link.tearDown, frameOf: toReal.lastFrame}
 	default:
-		sp := NewStreamPair(ctx, capacity)
-		sp.NoLogData = true
-		w := &c0607Wire{TearDown: func() { sp.TearDown(nil) }, Overlaps: func() int { return int(atomic.LoadInt32(&sp.Overlaps)) }}
-		if realIsSender {
-			w.Real, w.Peer = sp.A, sp.B
-		} else {
-			w.Real, w.Peer = sp.B, sp.A
+		if transport < 0 || transport > 3 {
+			transport = 0
 		}
-		return w
+		c1 := make(chan []byte, capacity)
+		c2 := make(chan []byte, capacity)
+		real := &c0607BufEndpoint{ctx: ctx, link: link, recv: c2, send: c1, reuse: transport > 0, scribble: transport - 1}
+		peer := &c0607BufEndpoint{ctx: ctx, link: link, recv: c1, send: c2, reuse: transport > 0, scribble: transport - 1}
+		return &c0607Wire{Real: real, Peer: peer, TearDown: link.tearDown}
 	}
 }
 
-// c0607TapOn puts the tap between the real code and its endpoint.
-func c0607TapOn(real fsutil.Stream, tap *Tap) *tapStream {
-	ts := &tapStream{inner: real, tap: tap}
-	if be, ok := real.(*c0607BufEndpoint); ok {
+// c0607TapOn puts the tap (boundary events, overlap counters, holds) between the real code
+// and its endpoint.
+func c0607TapOn(w *c0607Wire, tap *Tap, holds []c0607Hold) *tapStream {
+	ts := &tapStream{inner: w.Real, tap: tap, frameOf: w.frameOf, holds: holds, dataSeen: map[uint32]bool{},
+		entered: make(chan struct{}, 1), stop: make(chan struct{})}
+	if be, ok := w.Real.(*c0607BufEndpoint); ok {
 		ts.innerRecordsIn = true
-		be.OnDecoded = func(p *types.Packet) { tap.add(tapEvent{kind: 1, pkt: c0607DeepClone(p)}) }
+		be.OnDecoded = ts.recordIn
 	}
 	return ts
 }
@@ -99,11 +92,9 @@ func c0607TapOn(real fsutil.Stream, tap *Tap) *tapStream {
 type c0607Link struct {
 	down     chan struct{}
 	downOnce sync.Once
-	overlaps int32
 }
 
-func (l *c0607Link) tearDown()         { l.downOnce.Do(func() { close(l.down) }) }
-func (l *c0607Link) overlapCount() int { return int(atomic.LoadInt32(&l.overlaps)) }
+func (l *c0607Link) tearDown() { l.downOnce.Do(func() { close(l.down) }) }
 func (l *c0607Link) isDown() bool {
 	select {
 	case <-l.down:
@@ -124,15 +115,15 @@ func c0607Scribble(b []byte) {
 }
 
 type c0607BufEndpoint struct {
-	ctx            context.Context
-	link           *c0607Link
-	recv, send     chan []byte
-	inSend, inRecv int32
-	closeOne       sync.Once
-	scribble       int    // 0 never, 1 when the next RecvMsg begins, 2 as soon as Unmarshal has returned
-	rbuf           []byte // THE receive buffer
-	used           int
-	OnDecoded      func(*types.Packet)
+	ctx        context.Context
+	link       *c0607Link
+	recv, send chan []byte
+	closeOne   sync.Once
+	reuse      bool   // one receive buffer for all frames (otherwise a fresh slice per frame)
+	scribble   int    // reuse only: 0 never, 1 when the next RecvMsg begins, 2 as soon as Unmarshal has returned
+	rbuf       []byte // THE receive buffer
+	used       int
+	OnDecoded  func(frame []byte) // called with the frame's own bytes when Unmarshal has returned nil
 }
 
 var _ c0607Conn = &c0607BufEndpoint{}
@@ -145,10 +136,6 @@ func (e *c0607BufEndpoint) SendMsg(m interface{}) (err error) {
 	if !ok {
 		return errors.Errorf("invalid msg: %#v", m)
 	}
-	if atomic.AddInt32(&e.inSend, 1) > 1 {
-		atomic.AddInt32(&e.link.overlaps, 1)
-	}
-	defer atomic.AddInt32(&e.inSend, -1)
 	if e.link.isDown() {
 		return ErrTornDown
 	}
@@ -176,11 +163,7 @@ func (e *c0607BufEndpoint) RecvMsg(m interface{}) error {
 	if !ok {
 		return errors.Errorf("invalid msg: %#v", m)
 	}
-	if atomic.AddInt32(&e.inRecv, 1) > 1 {
-		atomic.AddInt32(&e.link.overlaps, 1)
-	}
-	defer atomic.AddInt32(&e.inRecv, -1)
-	if e.scribble == 1 {
+	if e.reuse && e.scribble == 1 {
 		c0607Scribble(e.rbuf[:e.used])
 		e.used = 0
 	}
@@ -195,7 +178,9 @@ func (e *c0607BufEndpoint) RecvMsg(m interface{}) error {
 			return io.EOF
 		}
 	}
-	if cap(e.rbuf) < len(dt) || e.rbuf == nil {
+	if !e.reuse {
+		e.rbuf = make([]byte, len(dt))
+	} else if cap(e.rbuf) < len(dt) || e.rbuf == nil {
 		if e.scribble != 0 {
 			c0607Scribble(e.rbuf[:cap(e.rbuf)])
 		}
@@ -210,11 +195,9 @@ func (e *c0607BufEndpoint) RecvMsg(m interface{}) error {
 	e.used = len(dt)
 	err := u.Unmarshal(buf)
 	if err == nil && e.OnDecoded != nil {
-		if p, ok := m.(*types.Packet); ok {
-			e.OnDecoded(p)
-		}
+		e.OnDecoded(dt)
 	}
-	if e.scribble == 2 {
+	if e.reuse && e.scribble == 2 {
 		c0607Scribble(buf)
 		e.used = 0
 	}
@@ -226,21 +209,28 @@ func (e *c0607BufEndpoint) RecvMsg(m interface{}) error {
 // one direction of an in-memory byte connection; every Write is one chunk, at most
 // `capacity` chunks are in flight (util.NewProtoStream writes one whole frame per SendMsg)
 type c0607BytePipe struct {
-	ctx             context.Context
-	link            *c0607Link
-	ch              chan []byte
-	cur             []byte
-	inRead, inWrite int32
-	closeOne        sync.Once
+	ctx      context.Context
+	link     *c0607Link
+	ch       chan []byte
+	cur      []byte
+	last     []byte // the chunk most recently taken by Read (one whole frame, length prefix included)
+	lmu      sync.Mutex
+	closeOne sync.Once
+}
+
+// lastFrame: the body of the frame most recently handed to the reader
+func (p *c0607BytePipe) lastFrame() []byte {
+	p.lmu.Lock()
+	defer p.lmu.Unlock()
+	if len(p.last) < 4 {
+		return nil
+	}
+	return p.last[4:]
 }
 
 func (p *c0607BytePipe) Close() { p.closeOne.Do(func() { close(p.ch) }) }
 
 func (p *c0607BytePipe) Write(b []byte) (n int, err error) {
-	if atomic.AddInt32(&p.inWrite, 1) > 1 {
-		atomic.AddInt32(&p.link.overlaps, 1)
-	}
-	defer atomic.AddInt32(&p.inWrite, -1)
 	if p.link.isDown() {
 		return 0, ErrTornDown
 	}
@@ -261,10 +251,6 @@ func (p *c0607BytePipe) Write(b []byte) (n int, err error) {
 }
 
 func (p *c0607BytePipe) Read(b []byte) (int, error) {
-	if atomic.AddInt32(&p.inRead, 1) > 1 {
-		atomic.AddInt32(&p.link.overlaps, 1)
-	}
-	defer atomic.AddInt32(&p.inRead, -1)
 	if p.link.isDown() {
 		return 0, ErrTornDown
 	}
@@ -279,6 +265,9 @@ func (p *c0607BytePipe) Read(b []byte) (int, error) {
 				return 0, io.EOF
 			}
 			p.cur = c
+			p.lmu.Lock()
+			p.last = c
+			p.lmu.Unlock()
 		}
 	}
 	n := copy(b, p.cur)
